@@ -9,7 +9,7 @@ TB_COMMON = [
 PROPS = {
     'C05': {
         'title': 'Commit buffers, commits and logs round-trip every operation sequence',
-        'modules': ['ColumnVerif.Props.C05'],
+        'modules': ['ColumnVerif.Props.C05', 'ColumnVerif.Props.C05swap'],
         'runs': [{'mode': 'codec'}],
         'trusted_base': TB_COMMON + [
             "modelled, not verified: Go slices/append, encoding/binary, the s2 compressor (log files are compared after decompression)",
@@ -17,8 +17,9 @@ PROPS = {
         'assumptions': [
             "values are 0/2/4/8 bytes or strings of at most 65535 bytes (the format's 2-byte length); offsets < 2^32",
             "the flat byte layout of a buffer is the concatenation of its sections (checked byte-exactly by the codec correspondence)",
+            "third sentence of the property (swap): proved with the hypothesis NoLater (no later op on the swapped offset in the chunk) for resizing swaps; without it the sentence is false of model and code alike — finding D12, counterexample theorem swapAt_resize_later_counterexample",
         ],
-        'level_text': "Lean theorems over the byte-exact codec model: every well-formed op sequence of any length decodes to itself (Seek), every chunk of an interleaved buffer reads as that chunk's ops in write order (Range), sections decode from their header values; plus byte-exact differential against commit.Buffer/Reader/Commit on exhaustive short and random long sequences and an implementation-only decode∘encode oracle.",
+        'level_text': "Lean theorems over the byte-exact codec model: every well-formed op sequence of any length decodes to itself (Seek), every chunk of an interleaved buffer reads as that chunk's ops in write order (Range), sections decode from their header values; the wire round trips of buffers, commits and logs; and the reader-side swap (Reader.Swap* as Buf.swapAt, the function the driver's `swap` op runs): a same-shape swap rewrites exactly the k-th op of the chunk into a Put of the result, in place, every other chunk untouched; a resizing swap marks it Skip and appends the Put at the end of the chunk's ops, and later readers see, for every offset, the same visible sequence with that merge turned into a put — provided no later op on that offset exists (swapAt_resize_visible), with the kernel-checked counterexample when one does (finding D12); plus byte-exact differential against commit.Buffer/Reader/Commit on exhaustive short and random long sequences and an implementation-only decode∘encode oracle.",
         'technique': 'Lean 4 proof (induction over op lists) + byte-exact model/implementation correspondence',
         'design_ref': '§6 C05',
     },
@@ -271,7 +272,7 @@ PROPS['C08'] = {
 
 PROPS['C17'] = {
     'title': 'Rows expire only after their deadline, and then do expire',
-    'modules': ['ColumnVerif.Props.C17', 'ColumnVerif.Props.C17skel'],
+    'modules': ['ColumnVerif.Props.C17', 'ColumnVerif.Props.C17store', 'ColumnVerif.Props.C17skel'],
     'runs': [{'mode': 'ttl'}, {'mode': 'store'}],
     'skeleton': True,
     'trusted_base': TB_COMMON + [SKEL_TB, "runtime, not modelled: the ticker, the wall clock, goroutine scheduling"],
@@ -279,7 +280,7 @@ PROPS['C17'] = {
         "PARTIAL: 'within a few cleanup intervals' depends on Go timers and scheduling, which no model here exhibits; it is observed with margins by the ttl mode",
         "Extend on a row without a deadline (observation O1) is outside the property; recorded as a counterexample theorem",
     ],
-    'level_text': "PARTIAL. Lean theorems over the executable model: a vacuum pass (With(expire) + ExpiresAt + now.After) deletes a row iff it is live, holds a deadline value, the deadline is non-zero and strictly before now — for every store, clock reading and offset (via C04's filter theorems); hence rows without TTL / with a future deadline are never removed and a passed deadline is removed by the next pass; TTL arithmetic (positive TTL = now + ttl, non-positive = never; Extend adds). The decision's shape in the source (ExpiresAt, now.After, `ok && expireAt != 0`, `ttl > 0`) is read from the regenerated skeleton. Tied to the code by running the real vacuum goroutine at 1–100 ms intervals over rows with all deadline kinds under concurrent updates, inserts and deletes, with generous margins, comparing every judged observation with the model's decision; and by differential histories (store mode) that write and merge the deadline column itself (Set = store, Extend = additive merge) across chunks, through offset re-use, replication (both loggers) and snapshot/restore, with replica- and restore-equality oracles.",
+    'level_text': "PARTIAL. Lean theorems over the executable model: a vacuum pass (With(expire) + ExpiresAt + now.After) deletes a row iff it is live, holds a deadline value, the deadline is non-zero and strictly before now — for every store, clock reading and offset (via C04's filter theorems); hence rows without TTL / with a future deadline are never removed and a passed deadline is removed by the next pass; TTL arithmetic (positive TTL = now + ttl, non-positive = never; Extend adds) carried down to the stored bytes and through the real Store.commit: the deadline column is a plain int64 column whose merge is wrapping addition (addMerge64_sem), a committed Set(ttl) / Extend(delta) makes the next passes delete the row exactly when now+ttl resp. d+delta lies before the clock (commit_set_then_vacuumPass, commit_extend_then_vacuumPass; in-range, non-zero deadlines). The decision's shape in the source (ExpiresAt, now.After, `ok && expireAt != 0`, `ttl > 0`) is read from the regenerated skeleton. Tied to the code by running the real vacuum goroutine at 1–100 ms intervals over rows with all deadline kinds under concurrent updates, inserts and deletes, with generous margins, comparing every judged observation with the model's decision; and by differential histories (store mode) that write and merge the deadline column itself (Set = store, Extend = additive merge) across chunks, through offset re-use, replication (both loggers) and snapshot/restore, with replica- and restore-equality oracles.",
     'technique': 'Lean 4 proof (decision logic stated outright) + regenerated protocol skeleton + timed observation of the real goroutine',
     'design_ref': '§6 C17',
 }
